@@ -394,6 +394,10 @@ ARTEFACTS = {
     "tr_noise_kb1": ["trace", "full", "kb1", "{seed}", "20", "2000", os.path.join(SPEC, "scenarios_kb1.json"), "{out}"],
     "tr_noise_kb2_long": ["trace", "full", "kb2", "{seed}", "300", "5000", os.path.join(SPEC, "scenarios_kb2.json"), "{out}"],
     "tr_noise_kb1_long": ["trace", "full", "kb1", "{seed}", "300", "5000", os.path.join(SPEC, "scenarios_kb1.json"), "{out}"],
+    "iso_kb2_q": ["isolation", "kb2", "32", "{out}"],
+    "iso_kb1_q": ["isolation", "kb1", "32", "{out}"],
+    "iso_kb2_t": ["isolation", "kb2", "3", "{out}"],
+    "iso_kb1_t": ["isolation", "kb1", "3", "{out}"],
     "t_words": ["table", "words", "{out}"],
     "t_layouts": ["table", "layouts", "{out}"],
     "t_preds": ["table", "preds", "{out}"],
@@ -481,6 +485,14 @@ JOBS = {
     "world_q": dict(kind="world", layouts=["Uk105Key", "De105Key"], num=100, env={"x": "repo"}),
     "world_t": dict(kind="world", layouts=["Us104Key", "Uk105Key", "De105Key", "Azerty", "No105Key", "FiSe105Key",
                                            "Colemak", "Dvorak104Key", "DVP104Key"], num=1500, env={"x": "repo"}, timeout=3600),
+    "conf_iso_kb2_q": dict(kind="tlc", module="Conf_Isolation", cfg="Conf_Isolation.cfg", workers=1, cont=False,
+                           env={"ISO": "art:iso_kb2_q", "COMP": "kb2"}),
+    "conf_iso_kb1_q": dict(kind="tlc", module="Conf_Isolation", cfg="Conf_Isolation.cfg", workers=1, cont=False,
+                           env={"ISO": "art:iso_kb1_q", "COMP": "kb1"}),
+    "conf_iso_kb2_t": dict(kind="tlc", module="Conf_Isolation", cfg="Conf_Isolation.cfg", workers=1, cont=False, heap="16g",
+                           env={"ISO": "art:iso_kb2_t", "COMP": "kb2"}, timeout=3600),
+    "conf_iso_kb1_t": dict(kind="tlc", module="Conf_Isolation", cfg="Conf_Isolation.cfg", workers=1, cont=False, heap="16g",
+                           env={"ISO": "art:iso_kb1_t", "COMP": "kb1"}, timeout=3600),
     "props_scan": dict(kind="tlc", module="Props_Scan", cfg="Props_Scan.cfg", workers=1,
                        env={"GRAPH1": "art:g_set1", "GRAPH2": "art:g_set2"}),
 }
@@ -502,11 +514,14 @@ PROPS = {
     "C13": dict(quick=["props_scan", "mc_world", "world_q"], thorough=["props_scan", "mc_world_full", "world_t"],
                 graphs=["g_set1", "g_set2"]),
     "C19": dict(quick=["mc_set1", "mc_set2", "props_scan"], graphs=["g_set1", "g_set2"]),
-    "C18": dict(quick=["mc_keyboard_set2", "conf_kb2_mixedq", "conf_kb1_mixedq", "trace_kb2", "trace_kb1"],
+    "C18": dict(quick=["mc_keyboard_set2", "conf_kb2_mixedq", "conf_kb1_mixedq", "trace_kb2", "trace_kb1",
+                       "conf_iso_kb2_q", "conf_iso_kb1_q"],
                 thorough=["mc_keyboard_set2", "mc_keyboard_set1", "mc_keyboard_set2_full", "conf_kb2_bits", "conf_kb1_bits",
-                          "conf_kb2_mixedq", "conf_kb1_mixedq", "conf_kb2_mixed", "trace_kb2_long", "trace_kb1_long"],
+                          "conf_kb2_mixedq", "conf_kb1_mixedq", "conf_kb2_mixed", "trace_kb2_long", "trace_kb1_long",
+                          "conf_iso_kb2_t", "conf_iso_kb1_t"],
                 graphs=["g_kb2_mixedq", "g_kb1_mixedq"],
-                traces=["tr_noise_kb2", "tr_noise_kb1"],
+                traces=["tr_noise_kb2", "tr_noise_kb1"], sweeps=["iso_kb2_q", "iso_kb1_q"],
+                sweeps_thorough=["iso_kb2_t", "iso_kb1_t"],
                 graphs_thorough=["g_kb2_bits", "g_kb1_bits", "g_kb2_mixedq", "g_kb1_mixedq", "g_kb2_mixed"],
                 traces_thorough=["tr_noise_kb2_long", "tr_noise_kb1_long"]),
     "C03": dict(quick=["conf_layouts", "world_q"], thorough=["conf_layouts", "world_t"], tables=["t_layouts"]),
@@ -552,6 +567,10 @@ def canon_key(rec):
         return "trace-spec comp=%s ctx=%s input=%s observed=%s query=%s" % (
             rec.get("comp"), rec.get("ctx"), json.dumps(rec.get("input"), separators=(",", ":")),
             json.dumps(rec.get("observed"), separators=(",", ":")), json.dumps(rec.get("observed_query"), separators=(",", ":")))
+    if k in ("isolation-stage", "isolation-result", "isolation-panic"):
+        return "%s comp=%s bits=%s bytes=%s ev=%s what=%s" % (
+            k, rec.get("comp"), rec.get("bits"), rec.get("bytes"), json.dumps(rec.get("ev"), separators=(",", ":")),
+            json.dumps(rec.get("changed", rec.get("ops")), separators=(",", ":")))
     if k in ("world-set-dependence", "world-host"):
         return "%s layout=%s s2=%s detail=%s" % (k, rec.get("layout"), rec.get("s2"),
                                                    hashlib.sha256(json.dumps(rec.get("detail"), sort_keys=True).encode()).hexdigest()[:10])
@@ -649,6 +668,10 @@ def write_replay(ctx, pid, n, rec, jobname):
                 doc["inputs"].append(inp)
         except Exception as e:  # replay stays usable as a record even without inputs
             doc["note"] = "could not expand access sequence: %s" % e
+    elif str(rec.get("kind", "")).startswith("isolation-"):
+        doc["component"] = comp
+        doc["inputs"] = list(rec.get("ev", [])) + [["byte", b] for b in rec.get("bytes", [])] + [["bit", b] for b in rec.get("bits", [])]
+        doc["note"] = "context only; apply the operations named by their numbers in the record (1..372 key events in enum order x Down/Up/SingleShot, 373-374 modes, 375-630 bytes, 631-2678 words, 2679-2680 bits, 2681 clear)"
     elif str(rec.get("kind", "")).startswith("world-"):
         doc["component"] = "kbl2:%s" % rec.get("layout")
         doc["note"] = "end-to-end step: Set 2 bytes s2 (host 2) / translated Set 1 bytes s1 (host 1); behaviour file in work/cache/<hash>/world/"
@@ -771,6 +794,13 @@ def run_check(pid, tier, seed):
         print("  case: %s :: %s" % (key, describe(rec)))
     # evidence
     impl_n, samples = 0, []
+    for sname in (p.get("sweeps_" + tier) or p.get("sweeps", [])):
+        path = ctx.art(sname)
+        n = count_lines(path)
+        impl_n += n * 2681
+        with open(path) as f:
+            first = json.loads(f.readline())
+        samples.append({"artefact": sname, "contexts": n, "operations_per_context": 2681, "first_record": first})
     for tname in (p.get("traces_" + tier) or p.get("traces", [])):
         path = ctx.art(tname)
         impl_n += count_lines(path)
